@@ -241,16 +241,20 @@ func c06Containers(r *mc.Report, n int, orderDev int, shard, nshards int) {
 					continue
 				}
 				c06Config(r, cfgCase{N: n, Mask: mask, Life: life, Target: t, Shape: "in"}, orderDev)
+				vdev := orderDev
+				if n >= 3 {
+					vdev = 0 // the optional / duplicated variants are explored under both base orders only
+				}
 				if n <= 3 && mask != 0 {
 					// the same set with every dependency declared optional (and registered)
-					c06Config(r, cfgCase{N: n, Mask: mask, Life: life, Target: t, Shape: "in", OptMask: mask}, orderDev)
+					c06Config(r, cfgCase{N: n, Mask: mask, Life: life, Target: t, Shape: "in", OptMask: mask}, vdev)
 				}
 				if mask != 0 && fmt.Sprint(t) == fmt.Sprint(uniformTargets(n, "plain")) {
 					// the same set with one dependency (each in turn) / every dependency declared twice
-					c06Config(r, cfgCase{N: n, Mask: mask, Life: life, Target: t, Shape: "positional", DupMask: mask}, orderDev)
+					c06Config(r, cfgCase{N: n, Mask: mask, Life: life, Target: t, Shape: "positional", DupMask: mask}, vdev)
 					for b := 0; b < n*n; b++ {
 						if mask&(1<<b) != 0 && mask != 1<<b {
-							c06Config(r, cfgCase{N: n, Mask: mask, Life: life, Target: t, Shape: "positional", DupMask: 1 << b}, orderDev)
+							c06Config(r, cfgCase{N: n, Mask: mask, Life: life, Target: t, Shape: "positional", DupMask: 1 << b}, vdev)
 						}
 					}
 				}
@@ -339,9 +343,13 @@ func init() {
 			if tier == "thorough" {
 				d3 = 1
 			}
-			for sh := 0; sh < 16; sh++ {
+			n3 := 16
+			if tier == "thorough" {
+				n3 = 48
+			}
+			for sh := 0; sh < n3; sh++ {
 				sh := sh
-				jobs = append(jobs, mc.Job{Name: fmt.Sprintf("c06-cont3#%d", sh), Weight: 10, Run: func(r *mc.Report) { c06Containers(r, 3, d3, sh, 16) }})
+				jobs = append(jobs, mc.Job{Name: fmt.Sprintf("c06-cont3#%d", sh), Weight: 10, Run: func(r *mc.Report) { c06Containers(r, 3, d3, sh, n3) }})
 			}
 			for sh := 0; sh < 4; sh++ {
 				sh := sh
